@@ -15,6 +15,9 @@ pub struct Case {
     pub style: Style,
     /// Some(name): rendered as "name = <expr>"
     pub assign: Option<String>,
+    /// a line given as text with its value (generated shapes that are not expression trees of the renderer)
+    #[serde(default, skip_serializing_if = "Option::is_none")]
+    pub raw: Option<(String, f64)>,
 }
 
 const LITS4: [&str; 4] = ["7", "2", "0.5", "-3"];
@@ -84,7 +87,7 @@ impl Prop for C02 {
                 let n = 1 + ch.choose(n_small);
                 let style = *ch.pick(&STYLES);
                 let e = tree(ch, n, &LITS4);
-                Some(Case { expr: e, style, assign: None })
+                Some(Case { expr: e, style, assign: None, raw: None })
             },
         ));
         let n_big = tier.pick(4, 5);
@@ -96,7 +99,7 @@ impl Prop for C02 {
             move |ch| {
                 let style = *ch.pick(&big_styles);
                 let e = tree(ch, n_big, &["7", "-3"]);
-                Some(Case { expr: e, style, assign: None })
+                Some(Case { expr: e, style, assign: None, raw: None })
             },
         ));
         let styles7: Vec<Style> = tier.pick(vec![Style::Minimal], vec![Style::Minimal, Style::Tight]);
@@ -108,7 +111,7 @@ impl Prop for C02 {
                 let n = 1 + ch.choose(3);
                 let style = *ch.pick(&styles7);
                 let e = tree(ch, n, &LITS7);
-                Some(Case { expr: e, style, assign: None })
+                Some(Case { expr: e, style, assign: None, raw: None })
             },
         ));
         f.push(Family::new(
@@ -119,7 +122,7 @@ impl Prop for C02 {
                 let n = 1 + ch.choose(2);
                 let style = *ch.pick(&[Style::Minimal, Style::Full, Style::Tight]);
                 let e = signed_tree(ch, n, &["7", "2", "-3"], true);
-                Some(Case { expr: e, style, assign: None })
+                Some(Case { expr: e, style, assign: None, raw: None })
             },
         ));
         let k = tier.pick(1, 2);
@@ -131,7 +134,7 @@ impl Prop for C02 {
             move |ch| {
                 let style = *ch.pick(&sstyles);
                 let e = signed_tree(ch, 3, &["7", "2", "-3"], true);
-                Some(Case { expr: e, style, assign: None })
+                Some(Case { expr: e, style, assign: None, raw: None })
             },
         ));
         f.push(Family::new(
@@ -159,7 +162,7 @@ impl Prop for C02 {
                     5 => (Expr::Bin('*', Box::new(Expr::Bin('+', Box::new(e), two())), two()), None),
                     _ => (Expr::Bin('*', two(), Box::new(e)), Some("x".to_string())),
                 };
-                Some(Case { expr: e, style: Style::Minimal, assign })
+                Some(Case { expr: e, style: Style::Minimal, assign, raw: None })
             },
         ));
         let na = tier.pick(3, 4);
@@ -172,7 +175,7 @@ impl Prop for C02 {
                 let style = *ch.pick(&STYLES);
                 let signed = ch.flag();
                 let e = if signed { signed_tree(ch, n.min(2), &["7", "2", "-3"], true) } else { tree(ch, n, &["7", "2", "-3"]) };
-                Some(Case { expr: e, style, assign: Some("x".into()) })
+                Some(Case { expr: e, style, assign: Some("x".into()), raw: None })
             },
         ));
         let nj = tier.pick(3, 5);
@@ -200,7 +203,24 @@ impl Prop for C02 {
                     let o = operand(ch);
                     acc = Expr::Bin(gap, Box::new(acc), Box::new(o));
                 }
-                Some(Case { expr: acc, style, assign: None })
+                Some(Case { expr: acc, style, assign: None, raw: None })
+            },
+        ));
+        f.push(Family::new(
+            "many-parentheses",
+            Mode::Full,
+            "parentheses nested to depth d around '1 + 1' and around '2 * (3 + 4)' for every d in 1..=48 and 64, 100, 200 (value 2 / 14), flat sums '(1) + (2) + ... + (k)' and products of k groups for every k in 1..=48 and 64, 100 (value k(k+1)/2), and k side-by-side groups '(1)(1)...(1)' (value k): the number of groups and the nesting depth do not matter",
+            move |ch| {
+                let ns: Vec<usize> = (1..=48).chain([64, 100, 200].into_iter()).collect();
+                let n = *ch.pick(&ns);
+                let (text, want): (String, f64) = match ch.choose(5) {
+                    0 => (format!("{}1 + 1{}", "(".repeat(n), ")".repeat(n)), 2.0),
+                    1 => (format!("{}2 * (3 + 4){}", "(".repeat(n), ")".repeat(n)), 14.0),
+                    2 => ((1..=n).map(|i| format!("({})", i)).collect::<Vec<_>>().join(" + "), (n * (n + 1) / 2) as f64),
+                    3 => ((1..=n).map(|_| "(1 + 1)".to_string()).collect::<Vec<_>>().join(" * "), if n <= 100 { 2f64.powi(n as i32) } else { return None }),
+                    _ => ((1..=n).map(|_| "(1)".to_string()).collect::<Vec<_>>().join(""), n as f64),
+                };
+                Some(Case { expr: Expr::Lit("0".into(), None), style: Style::Minimal, assign: None, raw: Some((text, want)) })
             },
         ));
         f.push(Family::new(
@@ -221,7 +241,7 @@ impl Prop for C02 {
                     Expr::Bin(op, Box::new(l), Box::new(r))
                 }
                 let n = 2 + ch.choose(2);
-                Some(Case { expr: t(ch, n, &lits), style: Style::Minimal, assign: None })
+                Some(Case { expr: t(ch, n, &lits), style: Style::Minimal, assign: None, raw: None })
             },
         ));
         f.push(Family::new(
@@ -239,7 +259,7 @@ impl Prop for C02 {
                     2 => Expr::Bin(*ch.pick(&OPS), Box::new(Expr::Lit("2".into(), None)), Box::new(l)),
                     _ => Expr::Bin('*', Box::new(Expr::Bin('+', Box::new(l), Box::new(Expr::Lit("1".into(), None)))), Box::new(Expr::Lit("2".into(), None))),
                 };
-                Some(Case { expr: e, style, assign: None })
+                Some(Case { expr: e, style, assign: None, raw: None })
             },
         ));
         f
@@ -258,7 +278,11 @@ impl Prop for C02 {
         if arith::has_date_triple(&toks) || arith::text_has_date_triple(&text) {
             return Verdict::pass(text, "excluded-date-triple", false, String::new(), 0);
         }
-        let want = arith::eval(&case.expr);
+        let mut want = arith::eval(&case.expr);
+        if let Some((t, w)) = &case.raw {
+            text = t.clone();
+            want = *w;
+        }
         let run = obs::eval(ctx.calc(&Cfg::default()), "en", &text);
         let observed = run.brief();
         let mut v = Verdict { input: text, class: "value-compared", compared: true, expected: format!("Number({:?})", want), observed, evals: 1, ..Default::default() };
